@@ -1,4 +1,5 @@
 import Lean.Data.Json
+import UcantoModel.Model.Message
 import UcantoModel.Model.Validator
 import UcantoModel.Model.Oracle
 import UcantoModel.Model.Server
@@ -113,7 +114,9 @@ def parseWorld (j : Json) : Except String Parsed := do
     pure (bytesOf (← getStr r "with"), (← getNat r "p"))
   let revoked ← (← getArr j "revoked").toList.mapM (·.getNat?)
   let now ← getInt j "now"
-  let bs ← (← getArr j "bs").mapM fun b => do (← b.getArr?).toList.mapM (·.getNat?)
+  let inl0 ← (← getArr j "tokens").mapM fun tj => do
+    (← getArr tj "inline").toList.mapM (·.getBool?)
+  let stores : Array (List Nat) := (Array.range toks.size).map fun i => Msg.storeOf toks inl0 (toks.size + 1) i
   let dj ← j.getObjVal? "desc"
   let dcan ← getStr dj "can"
   let dwith ← getStr dj "with"
@@ -122,7 +125,9 @@ def parseWorld (j : Json) : Except String Parsed := do
   let tokenOf : Nat → Option Token := fun l => toks[l]?
   let W : World := {
     token := tokenOf
-    present := fun b l => ((bs[b]?).getD []).contains l
+    -- which blocks a token carries is PREDICTED from the inline flags (`Msg.storeOf`), not read from the
+    -- implementation: a proof that was to be embedded and is not there is then a disagreement
+    present := fun b l => ((stores[b]?).getD []).contains l
     resolveProof := fun l => if resolver.contains l then (tokenOf l).map fun t => ⟨t, l⟩ else none
     authority := mkDid ps authority
     authorityKey := authorityKey
